@@ -111,6 +111,9 @@ template <long CAP> static void runDynamic(const std::vector<Op>& ops) {
 		else if (o.name == "get") { const DynamicArrayT<Tk, CAP>& ca = a; out += " ->" + std::to_string(a[o.args[0]].v) + (ca[static_cast<short>(o.args[0])].v == a[o.args[0]].v ? "" : " CONST-INDEX-DISAGREES"); }
 		else if (o.name == "clear") a.clear();
 		else if (o.name == "addall") { DynamicArrayT<Tk, CAP> other; for (long x : o.args) other.emplace(int(x)); a += other; }
+		else if (o.name == "selfassign") { DynamicArrayT<Tk, CAP>& alias = a; a = alias; }                                  // self-assignment must leave the array alone
+		else if (o.name == "copyback") { DynamicArrayT<Tk, CAP> b; b = a; a.clear(); a = b; }                                 // copy assignment there and back
+		else if (o.name == "copyctor") { const DynamicArrayT<Tk, CAP> b{a}; a = b; }                                          // copy construction, then assignment from the copy
 		else if (o.name == "addall2") { DynamicArrayT<Tk, 7> other; for (long x : o.args) other.emplace(int(x)); a += other; }   // operator += <N> with another capacity
 		dump(); out += "\n";
 	}
